@@ -194,6 +194,24 @@ def run(ctx, proof):
                 ctx.violation(f"correspondence 'GAP_FUNCTIONS = ev_gap model' broke: impl {gi} vs model {vals}",
                               {"case": campaign.case_json(c), "impl": gi, "model": vals}, found_input=False)
     ctx.coverage["gap_values_compared_with_model"] = len(gmeta)
+    # oracle on the implementation alone (theorem C07_gap_functions_comparable): the four gap functions measure one width vector -
+    # linf <= l1, exploitability <= l1, linf^2 <= l2^2 <= linf * l1, linf <= C(n, n//2) * exploitability (so that they vanish together), up to rounding
+    from math import comb
+    cmp_fail = 0
+    for c, gi in gmeta:
+        scale = max([1.0] + [abs(float(x)) for x in c["v"]]) * 2 ** c["n"]
+        t1, t2 = 1e-9 * scale, 1e-9 * scale * scale
+        e, l1, l2, li = gi["exploitability"], gi["l1_norm"], gi["l2_norm"], gi["linf_norm"]
+        bad = [w for w, okk in [("linf <= l1", li <= l1 + t1), ("exploitability <= l1", e <= l1 + t1),
+                                ("linf^2 <= l2^2", li * li <= l2 * l2 + t2), ("l2^2 <= linf*l1", l2 * l2 <= li * l1 + t2),
+                                ("linf <= C(n,n//2)*exploitability", li <= comb(c["n"], c["n"] // 2) * e + t1 * comb(c["n"], c["n"] // 2))]
+               if not okk]
+        ctx.count("gap_comparability", "ok" if not bad else "fail")
+        if bad:
+            cmp_fail += 1
+            if cmp_fail <= 3:
+                ctx.violation(f"gap functions of one incomplete game are not comparable ({'; '.join(bad)}): {gi}",
+                              {"case": campaign.case_json(c), "impl_gaps": gi, "violated": bad}, found_input=True)
     mism = campaign.run_cases(ctx, model_cases, [])
     campaign.report_mismatches(ctx, mism, [], "compute_bounds (impl) = compute (model) on knowledge sets visited along the lattice")
     ctx.coverage["edges_checked"] = evals
